@@ -227,9 +227,11 @@ class Group:
         Timeout defaults to None meaning open-ended waiting and no kill
         attempts.
         """
-        while self:
+        # gateways that were exit()ed earlier still have to be joined (and
+        # killed after the timeout), through their via-gateway if proxied
+        while self or self._gateways_to_join:
             vias: set[str] = set()
-            for gw in self:
+            for gw in list(self) + self._gateways_to_join:
                 if gw.spec.via:
                     vias.add(gw.spec.via)
             for gw in self:
